@@ -33,6 +33,13 @@ def parseBeh (s : String) : Option Behaviour :=
     | [m, r] => do let m ← m.toNat?; let r ← r.toNat?; pure (.errorReason m r)
     | _ => none
   | 'p' :: rest => (String.ofList rest).toNat?.map .panic
+  | 'v' :: rest =>
+    match (String.ofList rest).splitOn "/" with
+    | [m, r, e] => do
+      let m ← m.toNat?
+      let r ← if r == "-" then pure none else r.toNat?.map some
+      pure (.errorWith m r (e == "1"))
+    | _ => none
   | _ => none
 
 def parseItem (s : String) : Option ReqItem :=
